@@ -12,7 +12,7 @@ RULE = (
     "A history = sequence (<= 12 quick / <= 20 thorough) of {attach pipeline stage (root subscriber, getitem, map, "
     "filter, kmap, scan-sum, min, max, count, sum, last, average), activate (with-block or global), call f(x), "
     "deactivate (normally / by exception / explicit), re-activation attempt (on the root or through a child stage, "
-    "while active and after), call} over two probes on one function.  Every stage is subscribed through a "
+    "while active and after), refused activation of a fresh (multi-selector) probe with a pipeline attached, call} over two probes on one function.  Every stage is subscribed through a "
     "CompletionCounter (on_next / on_completed / on_error counts).  After every step the monitor compares every "
     "stage's on_next list with a reference computed from exactly the events delivered while the probe was active and "
     "after the stage was attached, checks on_completed == 1 iff the probe has been deactivated (and the stage was "
@@ -120,8 +120,10 @@ def gen_history(rnd, length):
             ops.append(["activate", pi, rnd.choice(["with", "global", "child"])])
         elif r < 0.60:
             ops.append(["deactivate", pi, rnd.choice(["normal", "exception", "explicit"])])
-        elif r < 0.68:
+        elif r < 0.66:
             ops.append(["reactivate", pi, rnd.choice(["root", "child", "activate"])])
+        elif r < 0.72:
+            ops.append(["bad_activate", rnd.choice(["f > a|f > nosuch", "f(a) > b|nofn > x", "f > nosuch2", "f > b|f > #nometa"])])
         else:
             ops.append(["call", rnd.randint(0, 9)])
     return ops
@@ -210,11 +212,37 @@ def run_history(ns, ops, res):
                     problems.append({"after": where, "problem": f"{label}: on_completed called {s['done'][0]} times"})
         return not problems
 
+    ghosts = []  # stages of probes whose activation was refused: must stay silent for ever
+
     for step, op in enumerate(ops):
         where = f"step {step} {op}"
         kind = op[0]
         try:
-            if kind == "stage":
+            if kind == "bad_activate":
+                from ptera import probing
+
+                before = snapshot()
+                gout = []
+                gcnt = []
+                err = None
+                try:
+                    gp = probing(*op[1].split("|"), env=ns)  # may already refuse (unresolvable function)
+                    gp.subscribe(lambda d, gout=gout: gout.append(dict(d)))
+                    if "f > a" in op[1]:
+                        gp["a"].count().subscribe(gcnt.append)
+                    gp.__enter__()
+                except Exception as ex:
+                    err = ex
+                info["refusals"] += 1
+                res.deciding += 1
+                ghosts.append((op[1], gout, gcnt))
+                if err is None:
+                    problems.append({"after": where, "problem": f"activation of {op[1]!r} was not refused"})
+                    break
+                if snapshot() != before:
+                    problems.append({"after": where, "problem": f"refused activation of {op[1]!r} changed instrumentation / handlers / outputs"})
+                    break
+            elif kind == "stage":
                 p = ps[op[1]]
                 s = p.attach(op[2])
                 if p.state == "active" and p.delivered:
@@ -290,7 +318,10 @@ def run_history(ns, ops, res):
         except Exception as ex:
             problems.append({"after": where, "problem": "exception: " + common.fmt_exc(ex)})
             break
-        if not check(where):
+        for sel, gout, gcnt in ghosts:
+            if gout or gcnt:
+                problems.append({"after": where, "problem": f"events reached the pipeline of the probe {sel!r} whose activation was refused: {gout[:3]} {gcnt[:3]}"})
+        if problems or not check(where):
             break
     if not problems:
         try:
